@@ -157,7 +157,6 @@ func recSites(p *Prog, comp []*ssa.Function) []recSite {
 // be acyclic elsewhere; each entry names the rule that establishes it.
 var c16Acyclic = map[string]string{
 	"resolved.resolverState.resolveType":    "common-type references: Resolve rejects cyclic common types before resolving (R16.2-cycle-check-first)",
-	"validate.Validator.isActionDescendant": "action hierarchy: Resolve's validateActionMembership rejects cyclic action groups (R16.2-cycle-check-first); assumes the resolved schema comes from Resolve",
 }
 
 func c16Recursion(p *Prog, r *Report) {
@@ -997,7 +996,7 @@ func c16ResolveOrder(p *Prog, r *Report) {
 	}
 	r.Check(okDetect, rule, "resolved.Resolve:common-type-cycles", p.pos(res.Pos()), "cyclic common types are rejected (error returned) before any of the "+itoa(len(resolvers))+" calls that inline type references",
 		"Resolve must call detectCommonTypeCycles and return its error before every call that reaches resolveTypeRef: inlining a cyclic common type recurses without end")
-	r.Check(membership != nil && errReturned(membership), rule, "resolved.Resolve:action-cycles", p.pos(res.Pos()), "cyclic action groups are rejected by Resolve", "Resolve must return validateActionMembership's error: the validator's walk over action parents assumes an acyclic hierarchy")
+	r.Check(membership != nil && errReturned(membership), rule, "resolved.Resolve:action-cycles", p.pos(res.Pos()), "cyclic action groups are rejected by Resolve", "Resolve must return validateActionMembership's error: a cyclic action hierarchy is a schema error the caller has to be told about")
 	// the type-reference resolver is only reachable through Resolve
 	for _, fn := range p.Funcs {
 		if fnPkgPath(fn) != pResolved || fn.Parent() != nil || fn == res {
